@@ -144,8 +144,9 @@ class Assumed:
     """Assumed (unchecked) contract for an external / opaque callee, matched by call text."""
 
     def __init__(self, returns=None, modifies=(), ensures=(), requires=(), may_raise=(),
-                 note='', ghost=None, returns_expr=None):
+                 note='', ghost=None, returns_expr=None, sets=None):
         self.returns = returns
+        self.sets = dict(sets or {})          # path -> spec: the callee REPLACES that attribute by a fresh value of this shape
         self.modifies = tuple(modifies)
         self.ensures = tuple(ensures)
         self.requires = tuple(requires)
